@@ -286,6 +286,71 @@ def assert_key(fi: FuncInfo, node: ast.Assert) -> str:
     return "%s :: %s" % (fi.key, norm(node.test))
 
 
+def _block_chain(fn: ast.AST, target: ast.AST) -> Optional[List[Tuple[List[ast.stmt], int]]]:
+    """[(statement list, index of the statement that contains target)] from the function body inwards."""
+
+    def rec(stmts: List[ast.stmt]) -> Optional[List[Tuple[List[ast.stmt], int]]]:
+        for i, st in enumerate(stmts):
+            if st is target:
+                return [(stmts, i)]
+            for fld in ("body", "orelse", "finalbody", "handlers"):
+                sub = getattr(st, fld, None)
+                if not isinstance(sub, list):
+                    continue
+                blocks = [h.body for h in sub] if fld == "handlers" else [sub]
+                for b in blocks:
+                    if b and isinstance(b[0], ast.stmt):
+                        r = rec(b)
+                        if r is not None:
+                            return [(stmts, i)] + r
+        return None
+
+    return rec(getattr(fn, "body", []))
+
+
+def expanded_test(fi: FuncInfo, node: ast.Assert, depth: int = 6) -> str:
+    """The asserted condition with plain local names replaced by their (straight-line) reaching definitions, so that
+    renaming a local or introducing an intermediate name does not change the identity of a reviewed assert."""
+    chain = _block_chain(fi.node, node)
+    if chain is None:
+        return norm(node.test)
+
+    def definition(name: str) -> Optional[ast.expr]:
+        for stmts, idx in reversed(chain):
+            for st in reversed(stmts[:idx]):
+                if isinstance(st, ast.Assign) and len(st.targets) == 1:
+                    t = st.targets[0]
+                    if isinstance(t, ast.Name) and t.id == name:
+                        return st.value
+                    if isinstance(t, (ast.Tuple, ast.List)):
+                        for k, el in enumerate(t.elts):
+                            if isinstance(el, ast.Name) and el.id == name:
+                                return ast.Subscript(value=st.value, slice=ast.Constant(value=k), ctx=ast.Load())
+                elif isinstance(st, ast.AnnAssign) and isinstance(st.target, ast.Name) and st.target.id == name and st.value is not None:
+                    return st.value
+                # any other statement that may bind the name (loops, nested assignments, augmented assignment): stop
+                if any(isinstance(n, ast.Name) and n.id == name and isinstance(n.ctx, (ast.Store, ast.Del)) for n in ast.walk(st)):
+                    return None
+        return None
+
+    class Sub(ast.NodeTransformer):
+        def __init__(self, left: int) -> None:
+            self.left = left
+
+        def visit_Name(self, n: ast.Name) -> ast.AST:
+            if isinstance(n.ctx, ast.Load) and self.left > 0 and n.id not in fi.params:
+                d = definition(n.id)
+                if d is not None:
+                    import copy as _copy
+
+                    return Sub(self.left - 1).visit(_copy.deepcopy(d))
+            return n
+
+    import copy as _copy
+
+    return norm(ast.fix_missing_locations(Sub(depth).visit(_copy.deepcopy(node.test))))
+
+
 def load_assert_table() -> Dict[str, dict]:
     if not os.path.exists(ASSERT_TABLE):
         return {}
@@ -357,6 +422,13 @@ def rule_asserts(ctx: Ctx, rule: str = "assert-on-input") -> None:
                 )
                 continue
             ent = table.get(key)
+            if ent is None:
+                # the same condition over renamed / re-introduced locals keeps its review
+                exp = expanded_test(fi, node)
+                for k2, e2 in table.items():
+                    if k2.startswith(fi.key + " :: ") and e2.get("expanded") == exp:
+                        ent = e2
+                        break
             if ent is None:
                 from .pathsim import is_new_helper
 
